@@ -22,7 +22,7 @@ type urlClass struct {
 
 var urlClasses = []urlClass{
 	{Re: "", Values: []string{"1", "abc", "a b", "é-ü", "100%", "%2F", "a%20b", "x?y", "x#y", "a+b", "a&b=c", "{id}", "{name}", "{n}", "$1", "..", ".", "a;b", "a:b", "日本", "~_-", "{id:\\d+}", "%41bc", "50%25off", "a=b", "[x]", "a'b\"c", "\\d+", "a\\b", "*"}},
-	{Re: `\d+`, Values: []string{"1", "22", "007", "1234567890"}},
+	{Re: `\d+`, Values: []string{"1", "22", "007", "1234567890", "0", "00"}},
 	{Re: `[a-z]+`, Values: []string{"a", "abc", "zz"}},
 	{Re: `\d{2}`, Values: []string{"12", "07", "99"}},
 	{Re: `(?:ab|cd)+`, Values: []string{"ab", "cdab", "cd"}},
@@ -52,7 +52,7 @@ func genNamedRoute(r *rand.Rand, k int, name string) *namedRouteSpec {
 		path = ""
 		ns.VarFirst = true
 	}
-	names := []string{"id", "name", "n", "uid", "x"}
+	names := []string{"id", "name", "n", "uid", "x", "num", "any", "all"} // the last three are also names of built-in global variables
 	r.Shuffle(len(names), func(i, j int) { names[i], names[j] = names[j], names[i] })
 	for i := 0; i < nv; i++ {
 		ci := r.IntN(len(urlClasses))
@@ -64,6 +64,11 @@ func genNamedRoute(r *rand.Rand, k int, name string) *namedRouteSpec {
 		}
 		if chance(r, 1, 3) && !(ns.VarFirst && i == 0) {
 			path += pick(r, []string{"/lit", "/v1.0", "/a-b"})
+		}
+		if urlClasses[ci].Re == "" && (names[i] == "num" || names[i] == "any" || names[i] == "all") {
+			// a plain {num} / {any} / {all} means the built-in global regex; only variables that
+			// bring their own regex may carry such a name here
+			names[i] = "v" + names[i]
 		}
 		v := "{" + names[i]
 		if urlClasses[ci].Re != "" {
@@ -133,7 +138,7 @@ func c15Case(t *T) {
 		cacheCap = pick(r, []int{1, 2, 3, 1000})
 		opts = append(opts, rux.CachingWithNum(uint16(cacheCap)))
 	}
-	router := rux.New(opts...)
+	router := NewRouterVia(r.IntN(3), opts...)
 	nNames := 1 + r.IntN(3)
 	var specs []*namedRouteSpec
 	latest := map[string]*namedRouteSpec{}
